@@ -62,6 +62,13 @@ def norm_msg(msg, keep_quotes=False):
     msg = _brlist.sub("[..]", msg)
     msg = _hexrun.sub("H", msg)
     if not keep_quotes:
+        # a quoted value that itself holds quote or control characters (generated data echoed by
+        # the message) cannot be cut out pairwise: everything from the first quote on is the value
+        if any(ord(ch) < 32 or ord(ch) == 127 for ch in msg) or \
+                (msg.count("'") % 2 == 1 and '"' not in msg) or (msg.count('"') % 2 == 1 and "'" not in msg):
+            m = re.search(r"['\"]", msg)
+            if m:
+                msg = msg[:m.start()] + "Q"
         msg = _quoted.sub("Q", msg)
     msg = _num.sub("N", msg)
     return msg
